@@ -67,7 +67,7 @@ class _ToyNistPriv:
 
 
 def toy_nist_valid(data):
-    return len(data) == 17 and data[0] == 4 and 0 < int.from_bytes(data[1:], "big") < TOY_Q
+    return len(data) == 17 and data[0] == 4 and int.from_bytes(data[1:], "big") < TOY_Q
 
 
 class ToyEcModule:
@@ -113,7 +113,7 @@ def make_toy_x(scalars):
 
         def exchange(self, peer):
             v = int.from_bytes(peer.raw, "big")
-            if v % TOY_Q == 1:
+            if v == TOY_Q + 1:
                 raise ValueError("toy: refused by the library")
             return pow(v, self.d, TOY_Q).to_bytes(32, "big")
 
@@ -422,6 +422,8 @@ class Mitm:
         self.c_sock, self._c_peer = socket.socketpair()
         self.s_sock, self._s_peer = socket.socketpair()
         self.seen = {"c2s": [], "s2c": []}
+        self.packets = {"c2s": [], "s2c": []}  # plaintext payloads as they were SENT (before editing)
+        self.banner = {}
         self.threads = [threading.Thread(target=self._relay, args=(self._c_peer, self._s_peer, "c2s"), daemon=True),
                         threading.Thread(target=self._relay, args=(self._s_peer, self._c_peer, "s2c"), daemon=True)]
         for t in self.threads:
@@ -437,6 +439,7 @@ class Mitm:
                     return
                 line += ch
             dst.sendall(line)
+            self.banner[direction] = line
             plaintext = True
             while plaintext:
                 hdr = read_exact(src, 4)
@@ -450,6 +453,7 @@ class Mitm:
                 payload = rest[1:plen - pad]
                 ptype = payload[0]
                 self.seen[direction].append(ptype)
+                self.packets[direction].append(payload)
                 new = self.edit(direction, ptype, payload)
                 if new is not None and new != payload:
                     payload = new
@@ -557,6 +561,8 @@ class E2E:
         if key_algo is not None:
             self.tc.get_security_options().key_types = [key_algo]
         self.log = {"c": [], "s": []}
+        self.cv = threading.Condition()
+        self.done = {"c": 0, "s": 0}  # completed key exchanges (NEWKEYS processed) per side
         for side, t in (("c", self.tc), ("s", self.ts)):
             self._record(side, t)
         self.client_error = None
@@ -567,9 +573,25 @@ class E2E:
 
         def rec(k, h):
             orig(k, h)
-            log.append((k, h, t.session_id))
+            with self.cv:
+                log.append((k, h, t.session_id))
+                self.cv.notify_all()
 
         t._set_K_H = rec
+        orig_nk = t._handler_table[21]
+
+        def newkeys(m):
+            orig_nk(m)
+            with self.cv:
+                self.done[side] += 1
+                self.cv.notify_all()
+
+        t._handler_table[21] = newkeys
+
+    def wait_logs(self, n, timeout=30):
+        with self.cv:
+            return self.cv.wait_for(lambda: len(self.log["c"]) >= n and len(self.log["s"]) >= n
+                                    and self.done["c"] >= n and self.done["s"] >= n, timeout)
 
     def handshake(self, timeout=30):
         """returns None on success, the client's exception otherwise (server failures: see ts)"""
@@ -786,12 +808,12 @@ def toy_curve_scenarios(rng):
             sc0["x"] = rng.randrange(2, 1 << 60)
             if fam == "c25519":
                 pts = [(b"\x00" * 32, "zero-secret"), (TOY_Q.to_bytes(32, "big"), "zero-secret"),
-                       ((1).to_bytes(32, "big"), "library-refuses"), ((TOY_Q + 1).to_bytes(32, "big"), "library-refuses"),
+                       ((1).to_bytes(32, "big"), "valid"), ((TOY_Q + 1).to_bytes(32, "big"), "library-refuses"),
                        (b"", "malformed"), (b"\x09" * 31, "malformed"), (b"\x09" * 33, "malformed"),
                        (rng.randbytes(32), "valid"), ((2).to_bytes(32, "big"), "valid")]
             else:
                 v = rng.randrange(1, TOY_Q)
-                pts = [(b"\x04" + v.to_bytes(16, "big"), "valid"), (b"\x04" + (0).to_bytes(16, "big"), "off-curve"),
+                pts = [(b"\x04" + v.to_bytes(16, "big"), "valid"), (b"\x04" + (0).to_bytes(16, "big"), "valid"), (b"\x04" + (TOY_Q + 5).to_bytes(16, "big"), "off-curve"),
                        (b"\x04" + TOY_Q.to_bytes(16, "big"), "off-curve"), (b"\x05" + v.to_bytes(16, "big"), "malformed"),
                        (b"\x04" + v.to_bytes(15, "big"), "malformed"), (b"", "malformed"), (b"\x00", "malformed"),
                        (b"\x04" + (TOY_Q - 1).to_bytes(16, "big"), "valid")]
